@@ -138,6 +138,22 @@ def items(ctx):
         pool.append(('edition-' + tag, {'ACME-ED-MIB': EDITION % {'ty': ty, 'extra': '' if tag == 'a' else ', edExtra Integer32',
                                                                 'extradecl': '' if tag == 'a' else EDITION_EXTRA}}, ['ACME-ED-MIB']))
     EDITIONS.append((len(pool) - 2, len(pool) - 1))
+    # a chain of parent references through three modules: with the root module missing the resolution of every OID below it
+    # fails deep inside the walk; the next call, with the root there, owes nothing to that failure (first of the directed pairs)
+    chain = {'ACME-CX-MIB': 'ACME-CX-MIB DEFINITIONS ::= BEGIN IMPORTS enterprises FROM SNMPv2-SMI;\ncxRoot OBJECT IDENTIFIER ::= { enterprises 77 }\nEND\n',
+             'ACME-CA-MIB': 'ACME-CA-MIB DEFINITIONS ::= BEGIN IMPORTS cxRoot FROM ACME-CX-MIB;\ncaNode OBJECT IDENTIFIER ::= { cxRoot 1 }\nEND\n',
+             'ACME-CB-MIB': ('ACME-CB-MIB DEFINITIONS ::= BEGIN IMPORTS caNode FROM ACME-CA-MIB OBJECT-TYPE, Integer32 FROM SNMPv2-SMI;\ncbNode OBJECT IDENTIFIER ::= { caNode 1 }\n'
+                             'cbLeaf OBJECT-TYPE SYNTAX Integer32 MAX-ACCESS read-only STATUS current DESCRIPTION "d" DEFVAL { 1 } ::= { cbNode 1 }\nEND\n')}
+    pool.append(('chain', chain, ['ACME-CB-MIB']))
+    pool.append(('broken:chain-root-missing', {k: v for k, v in chain.items() if k != 'ACME-CX-MIB'}, ['ACME-CB-MIB']))
+    PAIRS.insert(0, (len(pool) - 2, len(pool) - 1))
+    # one symbol imported from two modules that define it differently: which definition counts is a matter of the text (the
+    # module named last in sorted order), not of the hash seed
+    pool.append(('double-import', {
+        'ACME-ALPHA-MIB': 'ACME-ALPHA-MIB DEFINITIONS ::= BEGIN IMPORTS enterprises FROM SNMPv2-SMI;\nacmeBase OBJECT IDENTIFIER ::= { enterprises 1 }\nEND\n',
+        'ACME-BETA-MIB': 'ACME-BETA-MIB DEFINITIONS ::= BEGIN IMPORTS enterprises FROM SNMPv2-SMI;\nacmeBase OBJECT IDENTIFIER ::= { enterprises 2 }\nEND\n',
+        'ACME-BOTH-MIB': ('ACME-BOTH-MIB DEFINITIONS ::= BEGIN IMPORTS acmeBase FROM ACME-ALPHA-MIB acmeBase FROM ACME-BETA-MIB;\n'
+                          'bothNode OBJECT IDENTIFIER ::= { acmeBase 5 }\nbothLeaf OBJECT IDENTIFIER ::= { bothNode 1 }\nEND\n')}, ['ACME-BOTH-MIB']))
     pool.append(('macro-unterminated', {'ACME-M-MIB': 'ACME-M-MIB DEFINITIONS ::= BEGIN x MACRO ::= BEGIN never ends'}, ['ACME-M-MIB']))
     return pool
 
@@ -145,6 +161,23 @@ def items(ctx):
 # per-call options: what a call is given must not depend on what an earlier call was given (omitted = the library default)
 OPTION_SETS = [{'genTexts': True}, {}, {'genTexts': False}, {'genTexts': True, 'textFilter': (lambda symbol, text: text)},
                {'textFilter': (lambda symbol, text: text)}]
+
+
+def _user_template():
+    """a template of the user's own, in a directory of its own (removed when the check ends)"""
+    import atexit
+    import shutil
+    import tempfile
+    d = tempfile.mkdtemp(prefix='c12tpl-')
+    atexit.register(shutil.rmtree, d, True)
+    with open(os.path.join(d, 'user.j2'), 'w') as f:
+        f.write('{# a template of the user\'s own #}rendered by user.j2: {{ mib|length }} entries\n')
+    return os.path.join(d, 'user.j2')
+
+
+_TPL = _user_template()
+# (a bare file name, looked up in the working directory: the form both generators document)
+OPTION_SETS.append({'dstTemplate': os.path.basename(_TPL), '_cwd': os.path.dirname(_TPL)})
 
 
 class SharedCompiler(object):
@@ -168,11 +201,16 @@ class SharedCompiler(object):
         self.cur = texts
         self.out = {}
         kw = dict(OPTION_SETS[opts or 0])
+        cwd, there = os.getcwd(), kw.pop('_cwd', None)
         try:
+            if there:
+                os.chdir(there)
             res = self.comp.compile(*requested, **kw)
             return {'status': {k: canon_status(v) for k, v in res.items()}, 'texts': {k: mask(v) for k, v in self.out.items()}}
         except BaseException as e:
             return {'raised': '%s: %s' % (type(e).__name__, e)}
+        finally:
+            os.chdir(cwd)
 
 
 def first_diff(a, b, path=''):
@@ -334,6 +372,10 @@ def run(ctx):
                 seq.append(seq[0])
         # most histories use one option set throughout, the others change options between calls
         opts = [0] * len(seq) if h % 3 != 2 else [rng.randrange(len(OPTION_SETS)) for _ in seq]
+        if h in (0, 1):
+            # the stock template, a template of the user's, the stock one again - through one generator
+            seq = (seq * 3)[:3]
+            opts = [0, len(OPTION_SETS) - 1, 0]
         for pos, idx in enumerate(seq):
             label, texts, req = pool[idx]
             got = sc.step(texts, req, opts[pos])
@@ -504,6 +546,7 @@ def run(ctx):
                                                 'input': {'texts': pool[idx][1], 'seeds': [ref_seed, s]}})
                     break
     dialect_histories(ctx)
+    debug_independence(ctx)
     res.sample({'pool_labels': [p[0] for p in pool][:20]})
     res.sample({'field_tables': {k: {kk: v[kk] for kk in ('reads', 'writes', 'resets')} for k, v in facts.items() if k in ('symtable',)}})
 
@@ -522,6 +565,42 @@ DIALECT_TEXTS = {
     'v2-forbidden': ('smiV2', 'ACME-D5-MIB DEFINITIONS ::= BEGIN\nIMPORTS enterprises FROM SNMPv2-SMI;\n\n\nAcmeStr ::= OCTET STRING (SIZE (0..MAX))\nEND\n'),
     'v1-bad': ('smiV1', 'ACME-D6-MIB DEFINITIONS ::= BEGIN\nIMPORTS enterprises FROM RFC1155-SMI;\nacme MAX OBJECT IDENTIFIER ::= { enterprises 75 }\nEND\n'),
 }
+
+
+def debug_compile(texts, backend, flags):
+    """statuses and documents of one compile() with the package's debug logging switched to `flags` (printed nowhere)"""
+    from pysmi import debug
+    before = debug.logger
+    try:
+        if flags:
+            debug.setLogger(debug.Debug(*flags, **dict(loggerName='verif.null')))       # (a logger nobody listens to)
+        st, out, _ = pipeline.compile_set(texts, backend=backend, genTexts=True)
+    finally:
+        debug.setLogger(before)
+    return {k: canon_status(v) for k, v in st.items()}, {k: mask(v) for k, v in out.items()}
+
+
+def debug_independence(ctx):
+    """(F) what is compiled, and into what, does not depend on which debug categories are being logged"""
+    res = ctx.res
+    for i in range(4 if ctx.tier == 'quick' else 40):
+        g = mibgen.SetGen(random.Random(ctx.seed * 1000 + 7700 + i), n_modules=random.Random(i).choice([2, 3]), size=4)
+        g.build()
+        texts = {n: mibgen.print_module(m, random.Random(i)) for n, m in g.modules.items()}
+        for be in ('json', 'pysnmp'):
+            ref = debug_compile(texts, be, [])
+            for flags in (['all'], ['codegen'], ['compiler', 'reader'], ['parser', 'lexer', 'grammar'], ['searcher', 'writer', 'borrower']):
+                res.case(('debug-flags', i, be, tuple(flags)), True)
+                res.count('debug-flag-runs')
+                try:
+                    got = debug_compile(texts, be, flags)
+                except Exception as e:
+                    got = 'raised %s: %s' % (type(e).__name__, e)
+                if got != ref:
+                    d = first_diff(ref, got) if not isinstance(got, str) else ('', 'a result', got)
+                    res.oracle_failures.append({'key': 'debug-flags', 'what': 'with debug categories %s the %s result differs from the one without logging: %s %r / %r' % (
+                        flags, be, d[0], str(d[1])[:200], str(d[2])[:200]), 'input': {'texts': texts, 'backend': be, 'debug_flags': flags}})
+                    break
 
 
 def dialect_run(steps):
@@ -574,6 +653,8 @@ def replay(payload):
         return {'fails': outs[-1] != alone or str(alone.get('error', '')).startswith('other')}
     inp = payload['input']
     key = payload.get('key', '')
+    if key == 'debug-flags':
+        return {'fails': debug_compile(inp['texts'], inp['backend'], inp['debug_flags']) != debug_compile(inp['texts'], inp['backend'], [])}
     if key == 'compile-history':
         sc = SharedCompiler(inp['backend'])
         got = None
